@@ -96,6 +96,8 @@ def run(R):
         backend_tags(f, tags)
     R.cov['backend_histogram'] = tags
     run_mc(R, 'CTLS', cs, alias_every=3)
+    # or/and nodes with 3-5 (or 1) operands, each a distinct temporal (possibly quantified) formula
+    run_mc(R, 'CTLS', wide_cases(R.rng, 4000 if R.thorough else 400, 'CTLS'), label='_wide_connectives', alias_every=4)
     # structures with 4-6 states and few distinct label sets, ALL installed with shared label-set objects, and formulas with nested
     # quantifiers: the fresh-atom labelling of the working clone must not leak from one state to the states that shared its set
     rng = R.rng
